@@ -326,4 +326,20 @@ def check_case(case):
                 (a[k].values == b[k].values).all() if a[k].dtype.kind not in "f" else np.allclose(a[k].values, b[k].values, rtol=0, atol=0, equal_nan=True)
                 for k in a.columns):
             bad("parallel-differs", f"processes={case['processes']} gives a different table ({len(a)} vs {len(b)} rows)")
+    # ---- command-line tier (a quarter of the cases without min_weight, which the command does not offer):
+    # `cnvkit.py segment` on the written table = do_segmentation on the same file
+    if gen.pick(case, "cli", 4) == 0 and not out and not case["min_weight"]:
+        import shutil
+        import tempfile
+
+        from vk import cli
+
+        d = tempfile.mkdtemp(prefix="vk03.")
+        try:
+            diff = cli.segment_diff(cnarr, d, case["method"], case["skip_low"], case["skip_outliers"], None,
+                                    1 if is_hmm else case["processes"])
+            if diff:
+                bad("cli:segment", diff)
+        finally:
+            shutil.rmtree(d, ignore_errors=True)
     return out
